@@ -564,6 +564,28 @@ func TestCheck(t *testing.T) {
 			}
 		}
 	}
+	for v := 0; v < r.Env.N(24, 400); v++ {
+		i := idx
+		idx++
+		if !r.Mine(i) {
+			continue
+		}
+		c := r.Begin(i, map[string]any{"family": "reader-cancelled-while-its-request-is-queued", "variant": v})
+		readerCancelledWhileQueued(t, c, v)
+		c.FP(vk.Hash64("rcq", v%20), true)
+		c.End()
+	}
+	for v := 0; v < r.Env.N(12, 120); v++ {
+		i := idx
+		idx++
+		if !r.Mine(i) {
+			continue
+		}
+		c := r.Begin(i, map[string]any{"family": "stalled-peer-at-deletion", "variant": v})
+		stalledPeerAtDeletion(t, c, v)
+		c.FP(vk.Hash64("stalled", v%12), true)
+		c.End()
+	}
 	r.Count("enumerated_cases", int64(len(cases)))
 	r.Finish()
 }
